@@ -70,7 +70,13 @@ type gstate struct {
 	ext       []bool // task is blocked on a primitive the simulator does not model
 }
 
-var processPoisoned atomic.Bool
+var (
+	processPoisoned atomic.Bool
+	// mainOpSeq is odd while a simulated operation runs on the main goroutine
+	// (written by the main goroutine only: it orders nothing between tasks)
+	mainOpSeq  atomic.Uint64
+	hangReport atomic.Pointer[func(string)]
+)
 
 // ProcessPoisoned: some run of this process ended with task goroutines left
 // behind; no further run should be executed in it.
@@ -513,6 +519,7 @@ func (x *exec) watchdog(stop chan struct{}) {
 	s := x.sim
 	var lastSeq uint64
 	var lastTask int32 = -1
+	since := time.Now()
 	for {
 		select {
 		case <-stop:
@@ -522,7 +529,16 @@ func (x *exec) watchdog(stop chan struct{}) {
 		id, seq := s.waitTask.Load(), s.waitSeq.Load()
 		if id < 0 || id != lastTask || seq != lastSeq {
 			lastTask, lastSeq = id, seq
+			since = time.Now()
 			continue // the scheduler moved on since the last look
+		}
+		if time.Since(since) > 30*time.Second && !blockedOutsideSimulator(s.tasks[id].goid.Load()) {
+			// the scheduler has been waiting for the same yield of the same task for
+			// 30 s of real time and the task is not blocked: it spins
+			if rp := hangReport.Load(); rp != nil {
+				(*rp)(fmt.Sprintf("task %d has been running for 30 s of real time without reaching a yield point (navigator call, function entry, lock, ...) and without finishing: it loops (or allocates) without bound", id))
+			}
+			return
 		}
 		if !blockedOutsideSimulator(s.tasks[id].goid.Load()) {
 			continue
@@ -551,11 +567,28 @@ func (x *exec) watchdog(stop chan struct{}) {
 // process can never continue, and report is called with a description (it is
 // expected to write the verdict and exit).
 func HangWatch(report func(detail string)) {
+	hangReport.Store(&report)
 	go func() {
 		seen := 0
 		last := ""
+		var spinSeq uint64
+		var spinSince time.Time
 		for {
 			time.Sleep(200 * time.Millisecond)
+			// spinning: one simulated operation on the main goroutine has been
+			// running for 30 s of real time (they take micro- to milliseconds). Only
+			// a loop that reaches neither a navigator call nor a function entry of
+			// the package can do that - the step budget stops every other loop.
+			if q := mainOpSeq.Load(); q%2 == 1 {
+				if q != spinSeq {
+					spinSeq, spinSince = q, time.Now()
+				} else if time.Since(spinSince) > 30*time.Second {
+					report("an operation has been running for 30 s of real time without reaching a navigator call or a function entry of the package, and without finishing: it loops (or allocates) without bound")
+					return
+				}
+			} else {
+				spinSeq = 0
+			}
 			buf := make([]byte, 1<<18)
 			n := runtime.Stack(buf, true)
 			dump := string(buf[:n])
